@@ -7,6 +7,8 @@ package harness
 // (permanent, temporary, index), the gov proposals and the balances.
 
 import (
+	"bytes"
+	"encoding/hex"
 	"errors"
 	"fmt"
 	"sort"
@@ -21,6 +23,7 @@ import (
 	sdk "github.com/cosmos/cosmos-sdk/types"
 	sdkerrors "github.com/cosmos/cosmos-sdk/types/errors"
 	authtypes "github.com/cosmos/cosmos-sdk/x/auth/types"
+	"github.com/cosmos/cosmos-sdk/x/authz"
 	bankkeeper "github.com/cosmos/cosmos-sdk/x/bank/keeper"
 	banktypes "github.com/cosmos/cosmos-sdk/x/bank/types"
 	"github.com/cosmos/cosmos-sdk/x/gov"
@@ -34,6 +37,7 @@ import (
 	"github.com/provenance-io/provenance/app"
 	"github.com/provenance-io/provenance/x/quarantine"
 	"github.com/provenance-io/provenance/x/sanction"
+	sanctionkeeper "github.com/provenance-io/provenance/x/sanction/keeper"
 	sanctionerrors "github.com/provenance-io/provenance/x/sanction/errors"
 )
 
@@ -331,6 +335,8 @@ func (e *sancEnv) exec(op string) string {
 	gs := govkeeper.NewMsgServerImpl(&e.a.GovKeeper)
 	govAddr := sancAddrs["GOV"].String()
 	switch ws[0] {
+	case "tkey", "ikey", "skey", "tcmp", "tpre":
+		return Guard(func() string { return sancKeyOp(ws) })
 	case "cfg":
 		return e.applyCfg(ws)
 	case "q":
@@ -408,6 +414,25 @@ func (e *sancEnv) exec(op string) string {
 		bs := bankkeeper.NewMsgServerImpl(e.a.BankKeeper)
 		return e.try(func(ctx sdk.Context) (string, error) {
 			_, err := bs.Send(ctx, &banktypes.MsgSend{FromAddress: e.addr(sancKV(ws, "from", "A")), ToAddress: e.addr(sancKV(ws, "to", "B")), Amount: amt})
+			return "", err
+		})
+	case "xsend":
+		// MsgSend from `from`, executed on its behalf by `via` through an authz grant
+		amt, ok := sancCoins(sancKV(ws, "amt", "-"))
+		if !ok {
+			return "bad-op"
+		}
+		granter, err1 := sdk.AccAddressFromBech32(e.addr(sancKV(ws, "from", "A")))
+		grantee, err2 := sdk.AccAddressFromBech32(e.addr(sancKV(ws, "via", "B")))
+		if err1 != nil || err2 != nil || granter.Equals(grantee) {
+			return "bad-op"
+		}
+		return e.try(func(ctx sdk.Context) (string, error) {
+			exp := ctx.BlockTime().Add(24 * time.Hour)
+			if err := e.a.AuthzKeeper.SaveGrant(ctx, grantee, granter, &authz.GenericAuthorization{Msg: sdk.MsgTypeURL(&banktypes.MsgSend{})}, &exp); err != nil {
+				return "", err
+			}
+			_, err := e.a.AuthzKeeper.DispatchActions(ctx, grantee, []sdk.Msg{&banktypes.MsgSend{FromAddress: granter.String(), ToAddress: e.addr(sancKV(ws, "to", "B")), Amount: amt}})
 			return "", err
 		})
 	case "msend":
@@ -494,6 +519,120 @@ func (e *sancEnv) exec(op string) string {
 		})
 	}
 	return "bad-op"
+}
+
+// sancKeyOp runs the exported key functions of x/sanction/keeper/keys.go.
+func sancKeyOp(ws []string) string {
+	addr, err := hex.DecodeString(sancKV(ws, "addr", ""))
+	if err != nil {
+		return "bad-op"
+	}
+	u := func(k string) uint64 {
+		var x uint64
+		fmt.Sscan(sancKV(ws, k, "0"), &x)
+		return x
+	}
+	switch ws[0] {
+	case "tkey":
+		return hex.EncodeToString(sanctionkeeper.CreateTemporaryKey(addr, u("id")))
+	case "ikey":
+		return hex.EncodeToString(sanctionkeeper.CreateProposalTempIndexKey(u("id"), addr))
+	case "skey":
+		return hex.EncodeToString(sanctionkeeper.CreateSanctionedAddrKey(addr))
+	case "tcmp":
+		return fmt.Sprint(bytes.Compare(sanctionkeeper.CreateTemporaryKey(addr, u("a")), sanctionkeeper.CreateTemporaryKey(addr, u("b"))))
+	case "tpre":
+		other, err := hex.DecodeString(sancKV(ws, "other", ""))
+		if err != nil {
+			return "bad-op"
+		}
+		if bytes.HasPrefix(sanctionkeeper.CreateTemporaryKey(other, u("id")), sanctionkeeper.CreateTemporaryAddrPrefix(addr)) {
+			return "1"
+		}
+		return "0"
+	}
+	return "bad-op"
+}
+
+// keyHistory emits one history of key-layout ops: boundary ids, addresses of many lengths,
+// and pairs of addresses where one is a byte prefix of the other.
+func (g *sancGen) keyHistory(n int) {
+	r := g.r
+	g.out.Comment("history keys")
+	id := func() uint64 {
+		switch r.Intn(8) {
+		case 0:
+			return uint64(r.Intn(3))
+		case 1:
+			return uint64(254 + r.Intn(4))
+		case 2:
+			return uint64(1)<<32 - 1 + uint64(r.Intn(3))
+		case 3:
+			return uint64(1)<<63 - 1 + uint64(r.Intn(3))
+		case 4:
+			return ^uint64(0) - uint64(r.Intn(2))
+		case 5:
+			return uint64(1) << uint(r.Intn(64))
+		}
+		return r.U64() >> uint(r.Intn(64))
+	}
+	addr := func() []byte {
+		l := Pick(r, []int{1, 2, 8, 19, 20, 20, 20, 21, 32, 32, 33, 64, 255})
+		b := make([]byte, l)
+		for i := range b {
+			b[i] = byte(r.U64())
+			if r.Chance(20) {
+				b[i] = Pick(r, []byte{0, 1, 2, 3, 20, 32, 255})
+			}
+		}
+		return b
+	}
+	for i := 0; i < n; i++ {
+		a := addr()
+		ah := hex.EncodeToString(a)
+		var op string
+		switch r.Intn(6) {
+		case 0:
+			op = fmt.Sprintf("tkey addr=%s id=%d", ah, id())
+		case 1:
+			op = fmt.Sprintf("ikey addr=%s id=%d", ah, id())
+		case 2:
+			op = fmt.Sprintf("skey addr=%s", ah)
+		case 3, 4:
+			x := id()
+			y := id()
+			if r.Chance(30) {
+				y = x + uint64(r.Intn(3)) - 1
+			}
+			op = fmt.Sprintf("tcmp addr=%s a=%d b=%d", ah, x, y)
+		default:
+			o := addr()
+			switch r.Intn(4) {
+			case 0:
+				o = a
+			case 1: // other extends addr
+				if len(a) < 200 {
+					extra := addr()
+					k := 1 + r.Intn(len(extra))
+					if k > 8 {
+						k = 8
+					}
+					o = append(append([]byte{}, a...), extra[:k]...)
+				}
+			case 2: // other is a proper prefix of addr
+				if len(a) > 1 {
+					o = a[:1+r.Intn(len(a)-1)]
+				}
+			}
+			if len(o) > 255 {
+				o = o[:255]
+			}
+			op = fmt.Sprintf("tpre addr=%s other=%s id=%d", ah, hex.EncodeToString(o), id())
+		}
+		res := Guard(func() string { return sancKeyOp(strings.Fields(op)) })
+		g.out.Emit(op, res)
+		g.out.Count("op:" + strings.Fields(op)[0])
+	}
 }
 
 func sancShowName(n string) string {
@@ -583,6 +722,7 @@ type sancGen struct {
 	r    *RNG
 	out  *Out
 	last string
+	failProne bool // more protected addresses among the targets (passed proposals whose messages fail)
 	mode int // 0 = mixed, 1 = voting-heavy (proposals reach the voting period and are resolved by votes)
 	sanc int64 // immediate sanction min deposit (0 = none)
 	uns  int64
@@ -617,6 +757,49 @@ func (g *sancGen) q() {
 	if !strings.Contains(d, "perm=- ") {
 		g.out.Count("state:perm-nonempty")
 	}
+	// overlapping proposals on one address (the "latest entry" rule is exercised)
+	if t := kvArg(strings.Fields(d), "temp"); t != "-" && t != "" {
+		vals := map[string]map[string]bool{}
+		for _, e := range strings.Split(t, ";") {
+			f := strings.Split(e, "/")
+			if len(f) != 3 {
+				continue
+			}
+			if vals[f[0]] == nil {
+				vals[f[0]] = map[string]bool{}
+			}
+			vals[f[0]][f[1]+f[2]] = true
+		}
+		overlap, conflict := false, false
+		for _, m := range vals {
+			if len(m) > 1 {
+				overlap = true
+				s, u := false, false
+				for k := range m {
+					if strings.HasSuffix(k, "S") {
+						s = true
+					} else {
+						u = true
+					}
+				}
+				if s && u {
+					conflict = true
+				}
+			}
+		}
+		if overlap {
+			g.out.Count("state:addr-with-entries-of-several-proposals")
+		}
+		if conflict {
+			g.out.Count("state:addr-with-conflicting-entries")
+		}
+	}
+	for _, x := range strings.Split(kvArg(strings.Fields(d), "san"), ";") {
+		if strings.HasSuffix(x, ":1") {
+			g.out.Count("state:some-account-sanctioned")
+			break
+		}
+	}
 }
 
 func (g *sancGen) coin(n int64) string {
@@ -629,7 +812,7 @@ func (g *sancGen) coin(n int64) string {
 func (g *sancGen) target() string {
 	r := g.r
 	switch {
-	case r.Chance(7):
+	case r.Chance(7) || g.failProne && r.Chance(18):
 		return Pick(r, sancUnsanc)
 	case r.Chance(2):
 		return "EMPTY"
@@ -804,7 +987,11 @@ func (g *sancGen) history(k int, steps int) {
 	if r.Chance(45) {
 		g.mode = 1
 	}
+	g.failProne = g.mode == 1 && r.Chance(30)
 	g.sanc = Pick(r, []int64{0, 150, 150, 500, 500, 1000, 1500})
+	if g.failProne {
+		g.sanc = Pick(r, []int64{0, 1500, 2500})
+	}
 	g.uns = Pick(r, []int64{0, 0, 300, 300, 700, 1200})
 	pc := func(x int64) string {
 		if x == 0 {
@@ -849,7 +1036,7 @@ func (g *sancGen) history(k int, steps int) {
 		switch {
 		case x < 22 || len(ids) == 0 && x < 50:
 			exp := "0"
-			if r.Chance(15) {
+			if r.Chance(15) || g.mode == 1 && r.Chance(15) {
 				exp = "1"
 			}
 			g.do(fmt.Sprintf("submit who=%s msgs=%s dep=%s exp=%s", g.who(), g.msgs(), g.coin(g.amount(0)), exp))
@@ -903,7 +1090,16 @@ func (g *sancGen) history(k int, steps int) {
 			if r.Chance(2) {
 				a = "0" + sancBond
 			}
-			switch r.Intn(4) {
+			switch r.Intn(5) {
+			case 4:
+				via := Pick(r, sancUsers)
+				if via == from {
+					via = "V"
+					if from == "V" {
+						via = "A"
+					}
+				}
+				g.do(fmt.Sprintf("xsend via=%s from=%s to=%s amt=%s", via, from, to, a))
 			case 0:
 				g.do(fmt.Sprintf("send from=%s to=%s amt=%s", from, to, a))
 			case 1:
@@ -940,6 +1136,7 @@ func driveSanc(t *testing.T, rng *RNG, n int, out *Out) {
 	if *flagTier == "thorough" {
 		steps = 26
 	}
+	g.keyHistory(40 + n/2)
 	for k := 0; k < n; k++ {
 		g.history(k, steps+rng.Intn(8))
 	}
